@@ -20,6 +20,8 @@ import (
 	"fmt"
 	"go/token"
 	"go/types"
+	"sort"
+	"strings"
 
 	"golang.org/x/tools/go/ssa"
 )
@@ -183,6 +185,27 @@ func registerBoltModels() {
 					continue
 				}
 				e.hhavoc(st, m)
+			}
+			// captured locals the callback stores to (shared cells, escape.go): unknown after an unknown
+			// number of runs - in particular NOT the value one run leaves (there may have been none)
+			written := map[string]bool{}
+			cellsWritten(fnv.Fn, nil, written, map[*ssa.Function]bool{}, 0)
+			var keys []string
+			for k := range st.cells {
+				if strings.HasPrefix(k, "pc.") && written[k] {
+					keys = append(keys, k)
+				}
+			}
+			sort.Strings(keys)
+			for _, k := range keys {
+				t := e.cellTypes[k]
+				if t == nil {
+					continue
+				}
+				n := e.sc.freshConst("fe."+k, e.sc.sortOf(t))
+				st.cells[k] = n
+				e.sc.assume(st.reach, e.sc.rangeFact(n, t))
+				e.sc.assume(st.reach, e.allocFact(st, n, t))
 			}
 		}
 		// the enclosing function's frame holds in the arbitrary intermediate state, is checked to be
